@@ -276,6 +276,10 @@ type Opts struct {
 	// RealJWKS uses fosite's shipped DefaultJWKSFetcherStrategy (with its cache) over the stub HTTP transport instead of the
 	// cache-less stub strategy.
 	RealJWKS bool
+	// StatelessIntrospectionFirst (with JWTAccess) registers fosite's shipped stateless JWT validator
+	// (compose.OAuth2StatelessJWTIntrospectionFactory) IN FRONT of the storage-backed introspection handler, as a deployment
+	// does that wants signature-only validation for foreign resource servers and still composes the core validator.
+	StatelessIntrospectionFirst bool
 	// RetiredRevoker registers, in front of the provider's own revocation handler, a second shipped TokenRevocationHandler that
 	// serves a retired token family kept in a separate (empty) store: it knows none of the tokens of this world.
 	RetiredRevoker bool
@@ -431,6 +435,11 @@ func New(o Opts) *World {
 		compose.OAuth2PKCEFactory,
 		compose.PushedAuthorizeHandlerFactory,
 	)
+	if o.StatelessIntrospectionFirst {
+		if v, ok := compose.OAuth2StatelessJWTIntrospectionFactory(cfg, st, strat).(fosite.TokenIntrospector); ok {
+			cfg.TokenIntrospectionHandlers = append(fosite.TokenIntrospectionHandlers{v}, cfg.TokenIntrospectionHandlers...)
+		}
+	}
 	if o.RetiredRevoker {
 		retired := &oauth2.TokenRevocationHandler{TokenRevocationStorage: storage.NewMemoryStore(), AccessTokenStrategy: w.HMAC, RefreshTokenStrategy: w.HMAC}
 		cfg.RevocationHandlers = append(fosite.RevocationHandlers{retired}, cfg.RevocationHandlers...)
